@@ -237,7 +237,8 @@ let on_proc (idx : int) (msg : message) (obs : string) : unit =
             | None -> ());
            (match own_copy_of b info.self, own_copy_of o.snap info.self with
             | Some cb, Some ca ->
-                check "C05" (c05_own_ok cb ca) "processing a message changed the node's own namespace"
+                if not !catchup_seen then
+                  check "C05" (c05_own_ok cb ca) "processing a message changed the node's own namespace"
             | _ -> ());
            check "C20" (c20_ok info.has_cb b.nodes o.snap.nodes b.cb o.snap.cb)
              "catch-up callback count does not match the resets performed by this message";
